@@ -44,6 +44,11 @@ def deliver_case(draw, broker):
             "phase_us": draw(st.integers(0, 999_999)),
             "consumer_at": draw(st.one_of(st.just(0.0), st.integers(0, 6_000_000).map(lambda u: u / 1e6))),
             "max_unacked": draw(st.sampled_from([None, 1, 3]))}
+    if broker != "amqp" and draw(st.booleans()):
+        # a topic-filtered consumer (what every worker creates) behind a run of delayed messages of a topic it does not serve
+        case["filtered"] = True
+        case["foreign"] = [draw(st.integers(-5_000_000, 3_000_000))
+                           for _ in range(draw(st.sampled_from([0, 1, 3, 9, 10, 11, 12, 20, 25])))]
     if broker != "mem":
         case["lat"] = {"p0": draw(st.lists(st.sampled_from([0.0, 0.001, 0.003]), max_size=10)),
                        "c0": draw(st.lists(st.sampled_from([0.0, 0.001, 0.003]), max_size=20))}
@@ -106,6 +111,15 @@ async def _deliver(loop, case, out: Outcome):
     delivered: dict = {}
     lat_sum = sum(lat.get("c0", [])) + sum(lat.get("p0", []))
 
+    from repid.data._key import RoutingKey
+    from repid.data._parameters import DelayProperties, Parameters
+
+    foreign = case.get("foreign") or []
+    for i, us in enumerate(foreign):
+        await prod.message_broker.enqueue(
+            RoutingKey(topic="tx", queue="qd", priority=5, id_=f"f{i}"), "",
+            Parameters(delay=DelayProperties(next_execution_time=vclock.VDateTime.now() + timedelta(microseconds=us))))
+
     async def producer(m):
         await asyncio.sleep(max(0.0, t_base + m["at"] - loop.time()))
         await _enqueue(env, prod, m, loop, record)
@@ -113,7 +127,7 @@ async def _deliver(loop, case, out: Outcome):
 
     async def consumer():
         await asyncio.sleep(max(0.0, t_base + case["consumer_at"] - loop.time()))
-        c = cons_conn.message_broker.get_consumer("qd", None, case["max_unacked"])
+        c = cons_conn.message_broker.get_consumer("qd", ["t0"] if case.get("filtered") else None, case["max_unacked"])
         await c.start()
         record["_consumer_started"] = loop.time()
         try:
@@ -121,6 +135,8 @@ async def _deliver(loop, case, out: Outcome):
                 key, _payload, _params = await c.consume()
                 if key.id_ in delivered:
                     out.v("delivered-twice", f"message {key.id_} delivered again at {loop.time():.6f}")
+                if key.topic != "t0":
+                    out.v("foreign-delivered", f"message {key.id_} of topic {key.topic} handed to a consumer of topic t0")
                 delivered.setdefault(key.id_, loop.time())
                 await cons_conn.message_broker.ack(key)
         finally:
@@ -136,7 +152,12 @@ async def _deliver(loop, case, out: Outcome):
         if t.done() and not t.cancelled() and t.exception() is not None:
             out.v("enqueue-raises", f"enqueue raised {t.exception()!r}")
     started = record.get("_consumer_started", 0.0)
-    L = L_LATE[case["broker"]] + lat_sum + 0.01
+    L = L_LATE[case["broker"]] + lat_sum + 0.01 + 0.02 * len(foreign)
+    for i in range(len(foreign)):
+        kinds = [p.kind for p in pr.get(f"f{i}", [])]
+        if len(kinds) != 1 or kinds[0] not in ("waiting", "delayed"):
+            out.v("forgotten", f"delayed message f{i} of a topic nobody consumed should still be queued, found {kinds}", broker=case["broker"],
+                  head_of_line=False)
     end = t_base + HORIZON
     nontrivial = False
     for m in case["msgs"]:
@@ -171,6 +192,8 @@ async def _deliver(loop, case, out: Outcome):
     out.nontrivial = nontrivial
     for m in case["msgs"]:
         out.cls("delta-" + m["cls"])
+    if case.get("filtered"):
+        out.cls("filtered", "foreign-ge-10" if len(foreign) >= 10 else "foreign-lt-10")
     out.cls("broker-" + case["broker"], "consumer-first" if case["consumer_at"] <= min(m["at"] for m in case["msgs"]) else "consumer-later")
 
 
